@@ -11,6 +11,15 @@ NOTE = ("Trusted: CrossHair 0.0.110 + z3, the overlay venv, the environment stub
         "isinstance shim), the harness oracles under /verif/vf. Grammars are a fixed corpus (classes cannot be symbolic); all bounds are in evidence.assumptions.")
 
 CLAIMED = {
+    "C12": dict(
+        text="The real single- and multi-objective trackers, fed individuals one at a time and in batches, and the real search() of random search, "
+             "hill climbing, (1+1) and GP (opaque-token representation) run with the fitness of every program chosen by a symbolic selector into a small "
+             "table of distinct values and the optimisation direction(s) symbolic: every weak order of the history, with all tie patterns, is a path. "
+             "After every evaluation the reported best must dominate everything evaluated so far, the recorder's is_best flag must equal 'first or "
+             "strictly better than all earlier', every multi-objective best must attain the best aggregate, and search() must return the tracker's best, "
+             "which must have been evaluated. Path trees exhausted. Bounds: histories of 4 (thorough 5-6) evaluations, tables of 2-4 values, budgets <= 5.",
+        design_ref="DESIGN.md section 4 (C12)",
+    ),
     "C06": dict(
         text="Parents are produced by the real create_genotype over a symbolic source (so genes / tree shapes and leaf values are free), the real "
              "crossover / mutate of each representation and the generic crossover / mutation steps are executed with symbolic draws, and the offspring "
